@@ -8,6 +8,7 @@ import (
 	"deps.dev/util/resolve"
 	"deps.dev/util/resolve/dep"
 	"deps.dev/util/resolve/schema"
+	"deps.dev/util/resolve/verifbridge"
 	"deps.dev/util/resolve/version"
 	"verif/sim/kernel"
 	"verif/sim/uni"
@@ -323,6 +324,28 @@ func (s *c19State) roundTrip(h *c19Handle) {
 		back := sc.Packages[0].Versions[0].Attr
 		if !back.Equal(h.va) || uni.AttrString(back) != uni.AttrString(h.va) {
 			s.bad("AttrSet:text-roundtrip", "h%d %s written as %q parses back as %s", h.id, uni.AttrString(h.va), text, uni.AttrString(back))
+		}
+		// The repository's own writer for the inline form (versiontest.String,
+		// "compatible with ParseString: for any given dt,
+		// dt.Equal(Must(ParseString(String(dt))))"), reached through the
+		// overlay's bridge package.
+		own := verifbridge.VersionAttrString(h.va)
+		back2, err := verifbridge.VersionAttrParse(own)
+		if err != nil {
+			s.bad("AttrSet:repo-writer-parse", "h%d %s: versiontest.String wrote %q, which versiontest.ParseString rejects: %v", h.id, uni.AttrString(h.va), own, err)
+		} else if !back2.Equal(h.va) || uni.AttrString(back2) != uni.AttrString(h.va) {
+			s.bad("AttrSet:repo-writer-roundtrip", "h%d %s: versiontest.String wrote %q, which parses back as %s", h.id, uni.AttrString(h.va), own, uni.AttrString(back2))
+		}
+		// and as the prefix of a version line of a universe
+		text2 := "pkg\n\t"
+		if own != "" {
+			text2 += own + "|"
+		}
+		text2 += "1.0.0\n"
+		if sc2, err := schema.New(text2, resolve.NPM); err != nil || len(sc2.Packages) != 1 || len(sc2.Packages[0].Versions) != 1 {
+			s.bad("AttrSet:repo-writer-schema-parse", "h%d %s: schema.New failed on %q: %v", h.id, uni.AttrString(h.va), text2, err)
+		} else if b3 := sc2.Packages[0].Versions[0].Attr; !b3.Equal(h.va) {
+			s.bad("AttrSet:repo-writer-schema-roundtrip", "h%d %s written by versiontest.String as %q parses back as %s", h.id, uni.AttrString(h.va), text2, uni.AttrString(b3))
 		}
 		return
 	}
